@@ -163,7 +163,7 @@ impl Program {
                 "inner_array": a.inner.as_ref().map(|(c, p)| json!({"count": c, "pitch_xy": [p.0, p.1]})), "innermost_array": a.inner2.as_ref().map(|(c, p)| json!({"count": c, "pitch_xy": [p.0, p.1]})), "reflect_horiz": a.rh, "reflect_vert": a.rv, "loc": [a.at.0, a.at.1]}))
             .collect();
         let cells: Vec<Value> = self.cells.iter().enumerate().map(|(i, c)| json!({"name": format!("c{i}"), "outline_rect": [c.0, c.1]})).collect();
-        json!({"cells": cells, "instances": insts, "arrays": arrays, "parent_listed_first": self.parent_first, "two_parent_cells_second_moved_by_31_-17_and_with_an_abstract_view": self.two_parents, "stepped_outlines_same_bounding_box": self.stepped, "parents_not_listed_only_a_top_cell_instantiating_them": self.top_only, "relative_instances_handed_over_in_Layout_places": self.via_places, "leaf_cells_wrap_raw_layouts": self.raw_cells})
+        json!({"cells": cells, "instances": insts, "arrays": arrays, "parent_listed_first": self.parent_first, "two_parent_cells_second_moved_by_31_-17_and_with_an_abstract_view": self.two_parents, "stepped_outlines_same_bounding_box": self.stepped, "parents_not_listed_only_a_top_cell_reaching_them_through_an_unlisted_mid_cell": self.top_only, "relative_instances_handed_over_in_Layout_places": self.via_places, "leaf_cells_wrap_raw_layouts": self.raw_cells})
     }
 }
 
@@ -347,10 +347,14 @@ pub fn run_program(p: &Program, listing: &[usize]) -> Result<Vec<ParentSeen>, St
     }
     if p.top_only {
         // only the leaf cells and a top cell are listed; the parents are reached through the top cell's instances
-        let mut top = Layout::new("top", 0, Outline::rect(1000, 1000).map_err(|e| format!("setup: {e:?}"))?);
+        // (through one more unlisted level: top -> mid -> parents)
+        let mut mid = Layout::new("mid", 0, Outline::rect(1000, 1000).map_err(|e| format!("setup: {e:?}"))?);
         for (pi, pp) in parents.iter().enumerate() {
-            top.instances.add(Instance { inst_name: format!("ip{pi}"), cell: pp.clone(), loc: Place::Abs(Xy::from((300 * pi as isize, 0isize))), reflect_horiz: false, reflect_vert: false });
+            mid.instances.add(Instance { inst_name: format!("ip{pi}"), cell: pp.clone(), loc: Place::Abs(Xy::from((300 * pi as isize, 0isize))), reflect_horiz: false, reflect_vert: false });
         }
+        let midc: tetris::cell::Cell = mid.into();
+        let mut top = Layout::new("top", 0, Outline::rect(1000, 1000).map_err(|e| format!("setup: {e:?}"))?);
+        top.instances.add(Instance { inst_name: "im".into(), cell: Ptr::new(midc), loc: Place::Abs(Xy::from((0isize, 0isize))), reflect_horiz: false, reflect_vert: false });
         for c in &cellptrs {
             lib.cells.push(c.clone());
         }
